@@ -44,6 +44,7 @@ func runC15(c *Ctx) {
 	c15R11(c)
 	c15R12(c)
 	c15R13(c)
+	c15R14(c)
 	rollbackSnapshotAs(c, c.R.Rule("R9", "K6/K3 (= C13.R10) a failed live apply leaves the old configuration: the config the in-place rollback re-imports is a snapshot exported before the desired config was committed", 3))
 }
 
@@ -818,4 +819,74 @@ func c15R13(c *Ctx) {
 	}
 	walk(fn, 2)
 	c.R.Check(restored, r, "deleteConnectorAction.Rollback: the deleted connector's State is restored", c.Pos(fn.Pos()), "State put back", "deleteConnectorAction.Rollback re-creates the connector through createConnectorAction.Do → ConnectorService.Create, which builds a new instance: State (the source position / destination positions), LastActiveConfig and the timestamps of the deleted connector are gone although the import failed and 'retained' the previous configuration — the pipeline restarts its source from scratch", true)
+}
+
+// c15R14: F86/F87 — the entry points above the provisioning service must hand it what start-up provisioning would.
+//
+//	F86  deploy/apply over a live server: ParseSinglePipeline returns an ENRICHED config (ids `p:src`); the server's
+//	     handler enriches the document again and Enrich is not idempotent — the ids became `p:p:src`, so re-deploying an
+//	     unchanged file planned the deletion and re-creation of every connector and processor (positions discarded). The
+//	     wire document carries the ids with the enrich prefix removed.
+//	F87  the --dev watcher applied a file that defines the same pipeline id twice (start-up provisioning skips such ids,
+//	     `pipelines validate` rejects the file): every save applied both documents, never a no-op.
+func c15R14(c *Ctx) {
+	r := c.R.Rule("R14", "K6 entry points agree with start-up provisioning: the remote deploy document's connector/processor Id fields are computed (enrich prefix stripped), never the bare enriched config id; the dev watcher's parseFile passes its pipelines through a duplicate-id filter that reports provisioning.ErrDuplicatedPipelineID", 4)
+	const pDeploy = "cmd/conduit/internal/deploy"
+	const pDev = "pkg/conduit/dev"
+	if p := c.W.Pkg(pDeploy); p != nil {
+		n := 0
+		for _, fn := range c.W.AllFuncs(c.W.SSA[p.Types]) {
+			for _, b := range fn.Blocks {
+				for _, in := range b.Instrs {
+					st, ok := in.(*ssa.Store)
+					if !ok {
+						continue
+					}
+					fa, ok := st.Addr.(*ssa.FieldAddr)
+					if !ok {
+						continue
+					}
+					f := kit.FieldOf(fa)
+					tn := fa.X.Type().String()
+					if f == nil || f.Name() != "Id" || !(strings.Contains(tn, "PipelineDocument_Connector") || strings.Contains(tn, "PipelineDocument_Processor")) {
+						continue
+					}
+					n++
+					_, isCall := kit.Unwrap(st.Val).(*ssa.Call)
+					c.R.Check(isCall, r, kit.FuncKey(fn)+": the wire id of a connector/processor has the enrich prefix removed", c.Pos(st.Pos()), "computed id", "the remote deploy document carries the already enriched id (`<pipeline>:<connector>`): the server's handler runs config.Enrich again, which is not idempotent — the ids become `<pipeline>:<pipeline>:<connector>`, re-deploying an unchanged file plans the deletion and re-creation of every connector and processor, and applying that plan discards the stored positions", true)
+				}
+			}
+		}
+		c.R.Check(n >= 2, r, "deploy: PipelineDocument connector/processor ids", "", "found", "the Id assignments of the remote deploy document were not found", true)
+	} else {
+		c.R.Unresolved(r, pDeploy)
+	}
+	dupErr := c.W.LookupObj(pProv, "ErrDuplicatedPipelineID")
+	if fn := c.SSA(r, pDev, "(*Watcher).parseFile"); fn != nil && dupErr != nil {
+		found := false
+		seen := map[*ssa.Function]bool{}
+		var walk func(f *ssa.Function, d int)
+		walk = func(f *ssa.Function, d int) {
+			if f == nil || seen[f] || d < 0 {
+				return
+			}
+			seen[f] = true
+			for _, b := range f.Blocks {
+				for _, in := range b.Instrs {
+					for _, op := range in.Operands(nil) {
+						if g, ok := (*op).(*ssa.Global); ok && g.Object() == dupErr {
+							found = true
+						}
+					}
+					if ci, ok := in.(ssa.CallInstruction); ok {
+						if h := ci.Common().StaticCallee(); h != nil && h.Pkg == fn.Pkg {
+							walk(h, d-1)
+						}
+					}
+				}
+			}
+		}
+		walk(fn, 2)
+		c.R.Check(found, r, "dev watcher: duplicated pipeline ids in a file are refused", c.Pos(fn.Pos()), "ErrDuplicatedPipelineID reported", "the dev watcher's parseFile validates each document on its own and applies every one of them with allowRestartOnRunning=true: a file that defines the same pipeline id twice (start-up provisioning skips it, `pipelines validate` rejects it) is applied twice per save, the second document over the first, never a no-op and with no error shown", true)
+	}
 }
